@@ -28,6 +28,9 @@ def replay_case(prop, path, no_known=False):
         from vv import pyx
         ok, msg = pyx.replay(j["harness"], j, core.run_env(prop, extra))
         return (not ok), msg
+    if eng == "rc-campaign":
+        hit = core.replay_campaign(prop, j["harness"], j["campaign"], j.get("campaign_sub"), j.get("key"))
+        return hit, "campaign replay " + ("fails again" if hit else "passes")
     if eng == "fz":
         r = subprocess.run([f"{core.HB}/{j['harness']}", j["artifact"]], stdout=subprocess.PIPE, stderr=subprocess.STDOUT,
                            text=True, errors="replace", env=core.run_env(prop))
@@ -138,6 +141,18 @@ def main():
             log(f"VIOLATION property={prop} replay={path}")
             continue
         nfail = sum(1 for _ in range(3) if replay_case(prop, path)[0])
+        if nfail < 3 and f.get("campaign") and f.get("engine", "rc") == "rc" and not f.get("crash"):
+            # the single case passes on its own: does the failure come back when the generated history before it is
+            # replayed (same seed and case count)?  Then the history is the failing input.
+            for subsel in (f.get("sub"), None):
+                if all(core.replay_campaign(prop, f["harness"], f["campaign"], subsel, f.get("key")) for _ in range(3)):
+                    f["campaign_replay"] = True
+                    f["campaign_sub"] = subsel
+                    path = core.save_replay(prop, f)
+                    nfail = 3
+                    log(f"NOTE property={prop} key={f.get('key')}: the shrunk case passes alone, the failure reproduces 3/3 when the "
+                        f"generated history before it is replayed (state carried between calls)")
+                    break
         if nfail < 3:
             flaky.append(dict(path=path, nfail=nfail, key=f.get("key")))
             log(f"FLAKY property={prop} key={f.get('key')} replay={path} failed {nfail}/3 replays (not reported as violation)")
